@@ -101,7 +101,8 @@ def make_run(skel, label, fn, expect, backend):
             if label in ("group_by", "group_by_add"):
                 # documented: group_by replaces the grouping unless add=True, which appends to it
                 old = [pre.uuids[i] for i in pre.grp]
-                want = (old if label == "group_by_add" else []) + [pre.uuids[pre.vis[0]]]
+                want = old if label == "group_by_add" else []
+                want = want + [u for u in [pre.uuids[pre.vis[0]]] if u not in want]  # "added to the SET of grouping columns": a column is a grouping column at most once
                 vc.require(p.pc, z3.BoolVal(isinstance(node, VT.GroupBy) and node.add is (label == "group_by_add") and list(new._cache.partition_by) == want),
                            f"V1: grouping after {label} is {list(new._cache.partition_by)}; documented: {'the old grouping followed by' if label == 'group_by_add' else 'exactly'} the given columns", wit)
             if label == "ungroup":
